@@ -456,6 +456,9 @@ func (s *Server) handleConnReceiver(module *Module, crd *rsyncwire.CountingReade
 		},
 		Dest: module.Path,
 		Env: &rsyncos.Env{
+			// The client may request output (--progress, -n without
+			// --server, …) that the transfer code prints to stdout.
+			Stdout: io.Discard,
 			Stderr: s.stderr,
 		},
 		Conn:     c,
@@ -560,6 +563,9 @@ func (s *Server) handleConnSender(module *Module, crd *rsyncwire.CountingReader,
 		Conn:   c,
 		Seed:   sessionChecksumSeed,
 		Env: &rsyncos.Env{
+			// The client may request output (--progress, -n without
+			// --server, …) that the transfer code prints to stdout.
+			Stdout: io.Discard,
 			Stderr: s.stderr,
 		},
 		Progress: progress.NewPrinter(io.Discard, time.Now),
